@@ -183,7 +183,11 @@ func helperMain() {
 	}
 	// fatal messages only, on stderr (child<run>.err): zap's Fatal exits the process even through a Nop logger, and a silent
 	// exit(1) cannot be told from anything else
-	lg := zap.New(zapcore.NewCore(zapcore.NewConsoleEncoder(zap.NewDevelopmentEncoderConfig()), zapcore.Lock(os.Stderr), zapcore.FatalLevel))
+	lvl := zapcore.FatalLevel
+	if os.Getenv("C03_DEBUGLOG") != "" { // development aid: the plugin's and the pipeline's log in child<run>.err
+		lvl = zapcore.DebugLevel
+	}
+	lg := zap.New(zapcore.NewCore(zapcore.NewConsoleEncoder(zap.NewDevelopmentEncoderConfig()), zapcore.Lock(os.Stderr), lvl))
 	p := pipeline.New("c03", settings, prometheus.NewRegistry(), lg)
 	if hc.procs <= 1 {
 		p.DisableParallelism()
@@ -263,12 +267,16 @@ func helperMain() {
 		PluginStaticInfo:  &pipeline.PluginStaticInfo{Type: "verifout"},
 		PluginRuntimeInfo: &pipeline.PluginRuntimeInfo{Plugin: out},
 	})
-	p.Start()
-	out.rec("R\n")
 	// kill mode 5 of the parent: SIGTERM = the orderly shutdown (Pipeline.Stop -> input Stop: the workers get their nil jobs,
 	// jobProvider.stop saves the last known offsets, the watcher is closed). "S" marks that Stop returned.
+	// The handler is installed BEFORE the pipeline starts and "R" is written: the parent sends SIGTERM as soon as it has seen
+	// "R" and enough "D" records, and on a loaded machine (thorough tier: 10 helpers + strace) this goroutine can be off the CPU
+	// for longer than that between rec("R") and signal.Notify - the signal then had its default action (the process dies
+	// without Stop, which the parent reports as 'the helper died by itself').
 	term := make(chan os.Signal, 1)
 	signal.Notify(term, syscall.SIGTERM)
+	p.Start()
+	out.rec("R\n")
 	<-term
 	p.Stop()
 	out.rec("S\n")
